@@ -1,11 +1,15 @@
-(* The detected files stay in the class `covered` of OasisRead.v (apart from guard c5: CTRAPEZOID type 25), hence the reader
-   model loads them to the library the strict decoder assigns, which is the saved library up to the vertex cycle of the
-   detected polygons:
-     writer_output_cov_decode_d_lemma, oas_models_roundtrip_d_lemma, reader_flag_independence_lemma, decoder_flag_independence_lemma.
-   Counterpart of OasisRoundtrip.v for OasisWriteDetect.v. *)
+(* The detected files stay in the class `covered` of OasisRead.v apart from guard c5 (a square under DETECT_TRAPEZOIDS alone
+   is a CTRAPEZOID of type 25), and in the class of the relaxed guard of OasisReadRelaxed.v without exception; hence the
+   reader model loads them to the library the strict decoder assigns, which is the saved library up to the vertex cycle of
+   the detected polygons:
+     writer_output_cov_decode_d_lemma (+ _refuted without the side condition), writer_output_cov5_decode_d_lemma,
+     oas_models_roundtrip_d_all_lemma, reader_detected_vs_plain_lemma, reader_flag_independence_lemma,
+     decoder_flag_independence_lemma.
+   Counterpart of OasisRoundtrip.v for OasisWriteDetect.v; sections 2-3 are written over a record function that extends
+   cov_record so that they serve both guards. *)
 Require Import Base Generated OasisInt OasisIntProofs GdsReal OasisReal OasisRealProofs OasisPlist OasisPlistProofs.
 Require Import Table TableProofs PropList OasisSpec OasisSpecProofs OasisRead OasisWrite OasisWriteProofs OasisRoundtrip.
-Require Import OasisDetect OasisDetectProofs OasisWriteDetect OasisWriteDetectProofs.
+Require Import OasisDetect OasisDetectProofs OasisWriteDetect OasisWriteDetectProofs OasisReadRelaxed.
 Require OasisReadProofs.
 From Coq Require Import Permutation ZifyBool.
 From Flocq Require Import Core BinarySingleNaN Binary Bits.
@@ -127,15 +131,17 @@ Proof.
     intros rest. rewrite <- (D rest). f_equal. cbn [N.eqb Pos.eqb app]. rewrite <- ?app_assoc. reflexivity.
 Qed.
 
-(* guard (c5) of OasisRead.v: no CTRAPEZOID of type 25 *)
-Lemma cov_ctrapezoid_w m p t : wpoly_ok p -> wpoly_small p -> is_trapezoid (py_pts p) = Some t -> (25 <? tr_ty t) = false ->
-  tr_ty t <> 25 -> m_abs m = true ->
+(* CTRAPEZOID under the guarded decoder; [any25] = false is guard (c5) of OasisRead.v (no type 25), true lifts it *)
+Lemma cov_ctrapezoid_gen_w any25 m p t : wpoly_ok p -> wpoly_small p -> is_trapezoid (py_pts p) = Some t ->
+  (25 <? tr_ty t) = false -> m_abs m = true ->
   exists body m1, fst (geom_trapezoid p t) = 26 :: body /\
-    (forall rest, cov_ctrapezoid m (body ++ rest) = Some (snd (geom_trapezoid p t), m1, rest)) /\ m_abs m1 = true.
+    (forall rest, cov_ctrapezoid_gen any25 m (body ++ rest) =
+                  if negb any25 && (tr_ty t =? 25) then None else Some (snd (geom_trapezoid p t), m1, rest)) /\
+    m_abs m1 = true.
 Proof.
-  intros (Hl & Hd & Hne & Hpts & Hlen & Hrep) (Sl & Sd & Slen & Srep) Ht Hty H25 Ha.
+  intros (Hl & Hd & Hne & Hpts & Hlen & Hrep) (Sl & Sd & Slen & Srep) Ht Hty Ha.
   pose proof (is_trapezoid_facts _ _ Hpts Ht) as F. destruct t as [[[[ty corner] size] da] db].
-  cbn [tr_ty] in Hty, H25. unfold trap_facts in F. destruct F as (C1 & C2 & S1 & S2 & Fa & Fb & Fty).
+  cbn [tr_ty] in *. unfold trap_facts in F. destruct F as (C1 & C2 & S1 & S2 & Fa & Fb & Fty).
   destruct (ctrap_dims ty (fst size) (snd size) da db S1 S2 Hty Fty) as (H26 & Ew & Eh).
   destruct (u64z_sz _ S1) as [U1 W1]. destruct (u64z_sz _ S2) as [U2 W2].
   unfold geom_trapezoid. rewrite Hty. unfold trap_element. rewrite Hty.
@@ -143,11 +149,11 @@ Proof.
   destruct (info_bits_ctrap (ct_use_h ty) (ct_use_w ty) (has_rep (py_rep p))) as (B0 & B1 & B2 & B3 & B4 & B5 & B6 & B7).
   cbv zeta in B0, B1, B2, B3, B4, B5, B6, B7. rewrite rep_bit_if.
   eexists. eexists. split; [reflexivity|]. split; [intros rest|].
-  - unfold cov_ctrapezoid, cov_ctrapezoid_gen. cbn [app rd_byte obnd]. rewrite B0, B1, B2, B3, B4, B5, B6, B7.
+  - unfold cov_ctrapezoid_gen. cbn [app rd_byte obnd]. rewrite B0, B1, B2, B3, B4, B5, B6, B7.
     rewrite <- !app_assoc. cbn [fld].
     rewrite rd_u32_enc by exact Sl. cbn [obnd fld]. rewrite rd_u32_enc by exact Sd. cbn [obnd fld app rd_byte].
-    replace (26 <=? ty) with false by (symmetry; apply N.leb_gt; exact H26).
-    replace (ty =? 25) with false by (symmetry; apply N.eqb_neq; exact H25). cbn [negb andb orb].
+    replace (26 <=? ty) with false by (symmetry; apply N.leb_gt; exact H26). cbn [orb].
+    destruct (negb any25 && (ty =? 25)) eqn:G; [reflexivity|].
     rewrite <- ct_use_w_spec. change (ctrap_uses_h ty) with (ct_use_h ty).
     assert (Dw : forall mv bs, dim_fld (ct_use_w ty) (ct_use_w ty) mv
                                  ((if ct_use_w ty then enc_uint (Z.to_N (fst size)) else []) ++ bs) =
@@ -162,6 +168,16 @@ Proof.
     rewrite pos_fld_abs by (apply zc_fits; exact C2). cbn [obnd].
     rewrite cov_rep_field by assumption. cbn [obnd]. reflexivity.
   - cbn. first [exact Ha|reflexivity].
+Qed.
+
+Lemma cov_ctrapezoid_w m p t : wpoly_ok p -> wpoly_small p -> is_trapezoid (py_pts p) = Some t -> (25 <? tr_ty t) = false ->
+  tr_ty t <> 25 -> m_abs m = true ->
+  exists body m1, fst (geom_trapezoid p t) = 26 :: body /\
+    (forall rest, cov_ctrapezoid m (body ++ rest) = Some (snd (geom_trapezoid p t), m1, rest)) /\ m_abs m1 = true.
+Proof.
+  intros Hok Hs Ht Hty H25 Ha. destruct (cov_ctrapezoid_gen_w false m p t Hok Hs Ht Hty Ha) as (body & m1 & E & D & A1).
+  exists body, m1. split; [exact E|]. split; [|exact A1]. intros rest. unfold cov_ctrapezoid. rewrite (D rest).
+  replace (tr_ty t =? 25) with false by (symmetry; apply N.eqb_neq; exact H25). reflexivity.
 Qed.
 
 (* ---- the record switch of the guarded decoder *)
@@ -260,8 +276,82 @@ Qed.
 Lemma writes_ctrap25_notrap dr p : writes_ctrap25 dr false p = false.
 Proof. unfold writes_ctrap25. destruct (if dr then is_rectangle (py_pts p) else None); reflexivity. Qed.
 
-(* ================================================================== 2. the writer around any geometry routine, guarded decoder
-   (OasisRoundtrip.v with the polygon loop generalised) *)
+(* ================================================================== 2. runs of records under a record function that extends
+   cov_record (cov_record itself, or OasisReadRelaxed.cov_record5) *)
+Section XSteps.
+  Variable recf : bool -> dstate -> list N -> option step_result.
+  Hypothesis recf_ext : forall ois d bs r, cov_record ois d bs = Some r -> recf ois d bs = Some r.
+
+  Inductive xsteps (ois : bool) : modal -> core -> list (list N) -> modal -> core -> Prop :=
+  | xsteps_nil m k : xsteps ois m k [] m k
+  | xsteps_cons m k r m1 k1 rs m2 k2 :
+      r <> [] ->
+      (forall rest, recf ois (DS m k) (r ++ rest) = Some (Cont (DS m1 k1) rest)) ->
+      xsteps ois m1 k1 rs m2 k2 ->
+      xsteps ois m k (r :: rs) m2 k2.
+
+  Lemma xsteps_app ois m k r1 m1 k1 r2 m2 k2 :
+    xsteps ois m k r1 m1 k1 -> xsteps ois m1 k1 r2 m2 k2 -> xsteps ois m k (r1 ++ r2) m2 k2.
+  Proof. induction 1; intros H2; [exact H2|]. cbn [app]. econstructor; eauto. Qed.
+  Lemma xloop_step f ois d bs d' bs' :
+    recf ois d bs = Some (Cont d' bs') -> xloop recf (S f) ois d bs = xloop recf f ois d' bs'.
+  Proof. intros H. cbn [xloop]. rewrite H. reflexivity. Qed.
+  Lemma xsteps_loop ois m k rs m' k' : xsteps ois m k rs m' k' -> forall f rest,
+    xloop recf (length rs + f) ois (DS m k) (concat rs ++ rest) = xloop recf f ois (DS m' k') rest.
+  Proof.
+    induction 1 as [|m k r m1 k1 rs m2 k2 Hne Hr Hs IH]; intros f rest; [reflexivity|].
+    cbn [length concat Nat.add]. rewrite <- app_assoc. rewrite (xloop_step _ ois _ _ _ _ (Hr _)). apply IH.
+  Qed.
+  Lemma xsteps_nonempty ois m k rs m' k' : xsteps ois m k rs m' k' -> Forall (fun r => r <> []) rs.
+  Proof. induction 1; constructor; assumption. Qed.
+  Lemma xloop_mono n : forall ois d bs L n', xloop recf n ois d bs = Some L -> (n <= n')%nat -> xloop recf n' ois d bs = Some L.
+  Proof.
+    induction n as [|n IH]; intros ois d bs L n' H Hle; [discriminate|].
+    destruct n' as [|n']; [lia|]. cbn [xloop] in *.
+    destruct (recf ois d bs) as [[l|d' bs']|]; try assumption.
+    apply (IH _ _ _ _ n' H). lia.
+  Qed.
+  (* everything proved about the records under cov_record carries over *)
+  Lemma csteps_x ois m k rs m' k' : csteps ois m k rs m' k' -> xsteps ois m k rs m' k'.
+  Proof. induction 1; econstructor; eauto. Qed.
+
+  Definition xelem_steps ois (recs : list (list N)) (eps : list (element * list prop)) : Prop :=
+    forall m k c cs, m_abs m = true -> k_cells k = c :: cs ->
+    exists m', xsteps ois m k recs m' (after_elems k c cs eps) /\ m_abs m' = true.
+  Lemma celem_x ois recs eps : celem_steps ois recs eps -> xelem_steps ois recs eps.
+  Proof. intros H m k c cs Ha Hc. destruct (H m k c cs Ha Hc) as (m' & S & A). exists m'. split; [apply csteps_x; exact S|exact A]. Qed.
+  Lemma xelem_steps_nil ois : xelem_steps ois [] [].
+  Proof. intros m k c cs Ha Hc. exists m. split; [constructor|exact Ha]. Qed.
+  Lemma xelem_steps_app ois r1 e1 r2 e2 : xelem_steps ois r1 e1 -> xelem_steps ois r2 e2 -> xelem_steps ois (r1 ++ r2) (e1 ++ e2).
+  Proof.
+    intros H1 H2 m k c cs Ha Hc.
+    destruct (H1 m k c cs Ha Hc) as (m1 & S1 & A1).
+    destruct (H2 m1 (after_elems k c cs e1) (push_eps c e1) cs A1 (after_elems_cells k c cs e1 Hc)) as (m2 & S2 & A2).
+    exists m2. split; [|exact A2]. eapply xsteps_app; [exact S1|].
+    replace (after_elems k c cs (e1 ++ e2)) with (after_elems (after_elems k c cs e1) (push_eps c e1) cs e2); [exact S2|].
+    destruct e1 as [|a1 t1]; [reflexivity|]. destruct e2 as [|a2 t2].
+    - rewrite app_nil_r. reflexivity.
+    - unfold after_elems. cbn [app]. rewrite <- push_eps_app. destruct k; reflexivity.
+  Qed.
+  Lemma xelem_steps_one ois rec e pd :
+    rec <> [] -> Forall wf_nprop pd ->
+    (forall m k c cs, m_abs m = true -> k_cells k = c :: cs ->
+       exists m1, (forall rest, recf ois (DS m k) (rec ++ rest) =
+                                Some (Cont (DS m1 (k_set_cells k (push_elem c e :: cs) T_elem)) rest)) /\ m_abs m1 = true) ->
+    xelem_steps ois (rec :: map enc_prop_g pd) [(e, pd)].
+  Proof.
+    intros Hne Hpd H m k c cs Ha Hc. destruct (H m k c cs Ha Hc) as (m1 & Hrec & A1).
+    destruct (csteps_props_elem ois pd m1 (k_set_cells k (push_elem c e :: cs) T_elem) (push_elem c e) cs Hpd eq_refl eq_refl
+                ltac:(discriminate) A1) as (m' & Hs & Ha').
+    exists m'. split; [|exact Ha'].
+    econstructor; [exact Hne|exact Hrec|]. apply csteps_x.
+    unfold add_eprops, push_elem in Hs. cbn [c_elems c_name c_props] in Hs. rewrite app_nil_r in Hs.
+    unfold after_elems, push_eps. cbn [fold_left]. unfold push_ep. cbn [fst snd]. destruct k; exact Hs.
+  Qed.
+End XSteps.
+
+(* ================================================================== 3. the writer around any geometry routine, under such a record
+   function (OasisRoundtrip.v with the polygon loop and the record function generalised) *)
 Definition wlib_small_g (gf : wpoly -> geom) (l : wlib) : Prop :=
   Forall wcell_small (li_cells l) /\
   forall cfg, nm_count (run_ts (write_oas_run_g gf cfg l)) <= lim26 /\
@@ -270,29 +360,31 @@ Definition wlib_small_g (gf : wpoly -> geom) (l : wlib) : Prop :=
 Section GenericCov.
   Variable gf : wpoly -> geom.
   Variable ok : wpoly -> Prop.
+  Variable recf : bool -> dstate -> list N -> option step_result.
+  Hypothesis recf_ext : forall ois d bs r, cov_record ois d bs = Some r -> recf ois d bs = Some r.
   Hypothesis gf_geom : forall p, is_geom (snd (gf p)).
   Hypothesis gf_ne : forall p, fst (gf p) <> [].
-  Hypothesis gf_cstep : geom_step cov_record ok gf.
+  Hypothesis gf_cstep : geom_step recf ok gf.
 
   Lemma csteps_polygon_g ois st p recs ep st' : polygon_to_oas_g gf st p = (recs, ep, st') ->
-    ok p -> wf_gep ep -> celem_steps ois recs [ep].
+    ok p -> wf_gep ep -> xelem_steps recf ois recs [ep].
   Proof.
     unfold polygon_to_oas_g. pose proof (properties_to_oas_enc (py_props p) st) as Hpr.
     destruct (properties_to_oas st (py_props p)) as [[pr pd] st1]. cbn [fst snd] in Hpr. subst pr.
     intros [= <- <- <-] Hok [_ Hpd]. cbn [snd] in Hpd.
-    apply celem_steps_one; [apply gf_ne|exact Hpd|].
+    apply (xelem_steps_one recf recf_ext); [apply gf_ne|exact Hpd|].
     intros m k c cs Ha Hc. exact (gf_cstep ois p Hok m k c cs Ha Hc).
   Qed.
 
   Lemma csteps_polygons_g ois : forall l st recs eps st', polygons_to_oas_g gf st l = (recs, eps, st') ->
-    Forall ok l -> Forall wf_gep eps -> celem_steps ois recs eps.
+    Forall ok l -> Forall wf_gep eps -> xelem_steps recf ois recs eps.
   Proof.
     induction l as [|p t IH]; intros st recs eps st' E Hok Hg.
-    - injection E as <- <- <-. apply celem_steps_nil.
+    - injection E as <- <- <-. apply xelem_steps_nil.
     - cbn [polygons_to_oas_g] in E.
       destruct (polygon_to_oas_g gf st p) as [[r1 d1] st1] eqn:E1. destruct (polygons_to_oas_g gf st1 t) as [[r2 d2] st2] eqn:E2.
       injection E as <- <- <-. inversion Hok as [|? ? Hp Ht]; subst. inversion Hg as [|? ? Hg1 Hg2]; subst.
-      change (d1 :: d2) with ([d1] ++ d2). apply celem_steps_app.
+      change (d1 :: d2) with ([d1] ++ d2). apply xelem_steps_app.
       + exact (csteps_polygon_g ois st p r1 d1 st1 E1 Hp Hg1).
       + exact (IH st1 r2 d2 st2 E2 Ht Hg2).
   Qed.
@@ -302,7 +394,7 @@ Section GenericCov.
 
   Lemma csteps_cell_g ois cells ts st c recs gc ts' st' : cell_to_oas_g gf cells ts st c = (recs, gc, ts', st') ->
     wcell_oks_g c -> wf_gcell gc -> forall m k, m_abs m = true -> fresh_num gc (k_cells k) ->
-    exists m' tg', csteps ois m k recs m' (k_set_cells k (rcell_g gc :: k_cells k) tg') /\ m_abs m' = true.
+    exists m' tg', xsteps recf ois m k recs m' (k_set_cells k (rcell_g gc :: k_cells k) tg') /\ m_abs m' = true.
   Proof.
     unfold cell_to_oas_g. intros E (Hp & Hh & Hr & Hl) ((i & Hn & Hi) & _ & Hg) m k Ha Hfresh.
     destruct (polygons_to_oas_g gf st (cl_polys c)) as [[r1 d1] st1] eqn:E1.
@@ -312,15 +404,15 @@ Section GenericCov.
     injection E as <- <- <- <-. cbn [c_name c_elems] in *. specialize (Hfresh i Hn). injection Hn as Hn.
     apply Forall_app in Hg. destruct Hg as [G1 Hg]. apply Forall_app in Hg. destruct Hg as [G2 Hg].
     apply Forall_app in Hg. destruct Hg as [G3 G4].
-    pose proof (celem_steps_app ois _ _ _ _ (csteps_polygons_g ois _ _ _ _ _ E1 Hp G1)
-                 (celem_steps_app ois _ _ _ _ (csteps_flexpaths ois _ _ _ _ _ E2 Hh G2)
-                    (celem_steps_app ois _ _ _ _ (csteps_references ois cells _ _ _ _ _ E3 Hr G3)
-                       (csteps_labels ois _ _ _ _ _ _ _ E4 Hl G4)))) as Hall.
+    pose proof (xelem_steps_app recf ois _ _ _ _ (csteps_polygons_g ois _ _ _ _ _ E1 Hp G1)
+                 (xelem_steps_app recf ois _ _ _ _ (celem_x recf recf_ext ois _ _ (csteps_flexpaths ois _ _ _ _ _ E2 Hh G2))
+                    (xelem_steps_app recf ois _ _ _ _ (celem_x recf recf_ext ois _ _ (csteps_references ois cells _ _ _ _ _ E3 Hr G3))
+                       (celem_x recf recf_ext ois _ _ (csteps_labels ois _ _ _ _ _ _ _ E4 Hl G4))))) as Hall.
     set (c0 := mkCell (NNum i) [] []).
     destruct (Hall modal0 (k_set_cells k (c0 :: k_cells k) T_cell) c0 (k_cells k) eq_refl eq_refl) as (m' & S & A').
     exists m'. exists (match d1 ++ d2 ++ d3 ++ d4 with [] => T_cell | _ => T_elem end). split; [|exact A'].
-    apply (csteps_cons ois m k _ modal0 (k_set_cells k (c0 :: k_cells k) T_cell)); [discriminate| |].
-    - intros rest. unfold cov_record. change OasisRecord_CELL_REF_NUM with 13. cbn [app rd_byte obnd].
+    apply (xsteps_cons recf ois m k _ modal0 (k_set_cells k (c0 :: k_cells k) T_cell)); [discriminate| |].
+    - intros rest. apply recf_ext. unfold cov_record. change OasisRecord_CELL_REF_NUM with 13. cbn [app rd_byte obnd].
       rewrite Hn. rewrite rd_uint_enc by exact Hi. cbn [obnd]. unfold modal_at_cell. cbn [DS d_cells].
       rewrite Hfresh. destruct k; reflexivity.
     - unfold after_elems in S. unfold rcell_g. cbn [c_name c_props c_elems].
@@ -334,7 +426,7 @@ Section GenericCov.
     cells_to_oas_g gf cells pos ts st l = (recs, gcs, offs, ts', st') ->
     Forall wcell_oks_g l -> Forall wf_gcell gcs -> NoDup (map c_name gcs) ->
     forall m k, m_abs m = true -> (forall gc, In gc gcs -> fresh_num gc (k_cells k)) ->
-    exists m' tg', csteps ois m k recs m' (k_set_cells k (rev (map rcell_g gcs) ++ k_cells k) tg') /\ m_abs m' = true.
+    exists m' tg', xsteps recf ois m k recs m' (k_set_cells k (rev (map rcell_g gcs) ++ k_cells k) tg') /\ m_abs m' = true.
   Proof.
     induction l as [|c t IH]; intros pos ts st recs gcs offs ts' st' E Hok Hg Hnd m k Ha Hfr.
     - injection E as <- <- <- <- <-. exists m, (k_target k). split; [|exact Ha]. destruct k; constructor.
@@ -348,13 +440,13 @@ Section GenericCov.
       + intros gc Hin i Hi. cbn [k_set_cells k_cells existsb]. rewrite (Hfr gc (or_intror Hin) i Hi), orb_false_r.
         unfold cell_has_num, rcell_g. cbn [c_name]. destruct (c_name d1) as [s|j] eqn:Ej; [reflexivity|].
         apply N.eqb_neq. intros ->. apply Hnin. rewrite <- Hi. apply in_map. exact Hin.
-      + exists m2, tg2. split; [|exact A2]. eapply csteps_app; [exact S1|].
+      + exists m2, tg2. split; [|exact A2]. eapply xsteps_app; [exact S1|].
         cbn [map rev]. rewrite <- app_assoc. cbn [app]. destruct k; exact S2.
   Qed.
 
   Theorem writer_output_cov_decode_g : forall cfg l, wlib_ok_g gf l -> wlib_small_g gf l ->
     Forall wcell_oks_g (li_cells l) ->
-    cov_oas_decode (write_oas_model_g gf cfg l) = Some (view_w_g gf cfg l).
+    xdecode recf (write_oas_model_g gf cfg l) = Some (view_w_g gf cfg l).
   Proof.
     intros cfg l (Hlp & Hnd & Hcells & Hsize) (Hsmall & Hcnt) Hoks. specialize (Hsize cfg). specialize (Hcnt cfg).
     unfold view_w_g, cell_offsets_g. unfold write_oas_model_g in *. unfold write_oas_run_g in *.
@@ -403,7 +495,8 @@ Section GenericCov.
                   Hcells Hoffs ltac:(unfold pos1; lia) LK LV) as Wcn.
     (* the record loop *)
     set (u := real_of_bits (li_unit l)).
-    destruct (csteps_props_lib false d_lp modal0 (k_init u) Wlp eq_refl eq_refl) as (m1 & SA & A1).
+    destruct (csteps_props_lib false d_lp modal0 (k_init u) Wlp eq_refl eq_refl) as (m1 & SA0 & A1).
+    pose proof (csteps_x recf recf_ext _ _ _ _ _ _ SA0) as SA.
     set (kA := k_set_lprops (k_init u) (rev d_lp ++ k_lprops (k_init u))) in *.
     destruct (csteps_cells_g false names (li_cells l) pos1 names0 st1 r_c d_c offs ts st2 E2 Hoks Wc
                 (cells_res_g_nodup gf _ _ _ _ _ _ (R2 K3 VF T2 PK3 PV3 (prefix_refl _)) Hnd) m1 kA A1
@@ -411,14 +504,14 @@ Section GenericCov.
     set (kB := k_set_cells kA (rev (map rcell_g d_c) ++ k_cells kA) tg2) in *.
     destruct (csteps_cellnames false cfg names offs (li_cells l) st2 r_cn d_cn st3 E3
                 (Forall_impl _ (fun c (H : wcell_okp c) => proj1 H) Hcells) Wcn m2 kB 0%nat A2
-                (or_introl eq_refl) eq_refl (fun j _ => eq_refl)) as (m3 & SC & A3).
-    fold names in SC. set (kC := k_after_cellnames kB 0 names d_cn) in *.
+                (or_introl eq_refl) eq_refl (fun j _ => eq_refl)) as (m3 & SC0 & A3).
+    fold names in SC0. pose proof (csteps_x recf recf_ext _ _ _ _ _ _ SC0) as SC. set (kC := k_after_cellnames kB 0 names d_cn) in *.
     destruct (k_after_cellnames_fields kB 0 names d_cn) as (FC1 & FC2 & FC3 & FC4 & FC5 & FC6 & FC7 & FC8 & FC9 & FC10 & FC11 & FC12).
     fold kC in FC1, FC2, FC3, FC4, FC5, FC6, FC7, FC8, FC9, FC10, FC11, FC12.
     (* TEXTSTRING *)
     destruct (NR_items ts T2 HT2) as (NDts & INts & PMts).
-    assert (SD : csteps false m3 kC r_ts m3 (k_after_ts kC (nm_items ts))).
-    { apply csteps_textstrings; [left; rewrite FC10; reflexivity|apply (items_values_nodup _ _ PMts)|].
+    assert (SD : xsteps recf false m3 kC r_ts m3 (k_after_ts kC (nm_items ts))).
+    { apply (csteps_x recf recf_ext). apply csteps_textstrings; [left; rewrite FC10; reflexivity|apply (items_values_nodup _ _ PMts)|].
       intros kv Hin. split; [|split].
       - unfold wf_str. specialize (Bts2 kv Hin). lia.
       - destruct kv as [s v]. apply INts in Hin. cbn [snd].
@@ -430,8 +523,8 @@ Section GenericCov.
     fold kD in FD1, FD2, FD3, FD4, FD5, FD6, FD7, FD8, FD9, FD10, FD11.
     (* PROPNAME *)
     destruct (NR_items (ps_names st3) K3 NR3) as (NDpn & INpn & PMpn).
-    assert (SE : csteps false m3 kD r_pn m3 (k_after_pn kD (nm_items (ps_names st3)))).
-    { apply csteps_propnames; [left; rewrite FD10, FC11; reflexivity|apply (items_values_nodup _ _ PMpn)|].
+    assert (SE : xsteps recf false m3 kD r_pn m3 (k_after_pn kD (nm_items (ps_names st3)))).
+    { apply (csteps_x recf recf_ext). apply csteps_propnames; [left; rewrite FD10, FC11; reflexivity|apply (items_values_nodup _ _ PMpn)|].
       intros kv Hin. split; [|split].
       - unfold wf_str. specialize (Bpn2 kv Hin). lia.
       - destruct kv as [s v]. apply INpn in Hin. cbn [snd].
@@ -442,16 +535,16 @@ Section GenericCov.
     destruct (k_after_pn_fields kD (nm_items (ps_names st3))) as (FE1 & FE2 & FE3 & FE4 & FE5 & FE6 & FE7 & FE8 & FE9 & FE10).
     fold kE in FE1, FE2, FE3, FE4, FE5, FE6, FE7, FE8, FE9, FE10.
     (* PROPSTRING *)
-    assert (SF : csteps false m3 kE r_ps m3 (k_after_ps kE 0 VF)).
-    { apply csteps_propstrings; [left; rewrite FE10, FD11, FC12; reflexivity|rewrite FE9, FD9, FC9; reflexivity| |].
+    assert (SF : xsteps recf false m3 kE r_ps m3 (k_after_ps kE 0 VF)).
+    { apply (csteps_x recf recf_ext). apply csteps_propstrings; [left; rewrite FE10, FD11, FC12; reflexivity|rewrite FE9, FD9, FC9; reflexivity| |].
       - apply Forall_forall. intros s Hin. unfold wf_str. specialize (Bps2 s Hin). lia.
       - intros j _. rewrite FE8, FD8, FC8. reflexivity. }
     set (kF := k_after_ps kE 0 VF) in *.
     destruct (k_after_ps_fields kE 0 VF) as (FF1 & FF2 & FF3 & FF4 & FF5 & FF6 & FF7 & FF8).
     fold kF in FF1, FF2, FF3, FF4, FF5, FF6, FF7, FF8.
-    assert (Sall : csteps false modal0 (k_init u) (r_lp ++ r_c ++ r_cn ++ r_ts ++ r_pn ++ r_ps) m3 kF).
-    { rewrite Enc1. eapply csteps_app; [exact SA|]. eapply csteps_app; [exact SB|]. eapply csteps_app; [exact SC|].
-      eapply csteps_app; [exact SD|]. eapply csteps_app; [exact SE|exact SF]. }
+    assert (Sall : xsteps recf false modal0 (k_init u) (r_lp ++ r_c ++ r_cn ++ r_ts ++ r_pn ++ r_ps) m3 kF).
+    { rewrite Enc1. eapply xsteps_app; [exact SA|]. eapply xsteps_app; [exact SB|]. eapply xsteps_app; [exact SC|].
+      eapply xsteps_app; [exact SD|]. eapply xsteps_app; [exact SE|exact SF]. }
     set (R := r_lp ++ r_c ++ r_cn ++ r_ts ++ r_pn ++ r_ps) in *.
     (* END *)
     pose proof (end_record_ok
@@ -515,7 +608,7 @@ Section GenericCov.
       exists (OasisWrite.view_prop e). apply (prop_res_resolve (k_pn kF) (k_ps kF) K3 VF _ _ AgK AgV He). }
     destruct Hc8 as (x8 & Hc8).
     (* the header *)
-    unfold cov_oas_decode. unfold start, start_header. rewrite <- !app_assoc. rewrite strip_prefix_app. cbn [obnd].
+    unfold xdecode. unfold start, start_header. rewrite <- !app_assoc. rewrite strip_prefix_app. cbn [obnd].
     change OasisRecord_START with 1. cbn [app rd_byte obnd N.eqb Pos.eqb negb].
     match goal with |- context [rd_string (3 :: 49 :: 46 :: 48 :: ?X)] =>
       change (3 :: 49 :: 46 :: 48 :: X) with (wr_string version_1_0 ++ X) end.
@@ -525,11 +618,14 @@ Section GenericCov.
     rewrite cov_real_enc_real. cbn [obnd app].
     rewrite rd_uint_small by lia. cbn [obnd N.ltb N.compare Pos.compare Pos.compare_cont N.eqb].
     change (d_init (real_of_bits (li_unit l))) with (DS modal0 (k_init u)).
-    apply (cov_loop_mono (length R + 1)).
-    - rewrite (csteps_loop false _ _ _ _ _ Sall 1%nat (2 :: tail)). cbn [cov_loop].
-      unfold cov_record. cbn [rd_byte obnd]. rewrite Hend. unfold cov_finalize. cbn [DS d_propnames d_propstrings d_cn_props].
-      rewrite Hc8. cbn [obnd]. rewrite Hfin. reflexivity.
-    - rewrite app_length. pose proof (concat_length_ge R (csteps_nonempty _ _ _ _ _ _ Sall)). cbn [length]. lia.
+    apply (xloop_mono recf recf_ext (length R + 1)%nat).
+    - rewrite (xsteps_loop recf false _ _ _ _ _ Sall 1%nat (2 :: tail)). cbn [xloop].
+      assert (Hlast : cov_record false (DS m3 kF) (2 :: tail) =
+                      Some (Done (mkLayout u (view_props (li_props l)) (map (view_cell_g gf cfg names offs) (li_cells l))))).
+      { unfold cov_record. cbn [rd_byte obnd]. rewrite Hend. unfold cov_finalize. cbn [DS d_propnames d_propstrings d_cn_props].
+        rewrite Hc8. cbn [obnd]. rewrite Hfin. reflexivity. }
+      rewrite (recf_ext _ _ _ _ Hlast). reflexivity.
+    - rewrite app_length. pose proof (concat_length_ge R (xsteps_nonempty recf _ _ _ _ _ _ Sall)). cbn [length]. lia.
   Qed.
 End GenericCov.
 
@@ -559,8 +655,9 @@ Theorem writer_output_cov_decode_d_lemma : forall cfg flags l,
   wlib_ok_d flags l -> wlib_small_d flags l -> no_ctrap25 flags l ->
   cov_oas_decode (write_oas_model_d cfg flags l) = Some (view_w_d cfg flags l).
 Proof.
-  intros cfg flags l Hok Hs H25. unfold write_oas_model_d, view_w_d.
-  apply (writer_output_cov_decode_g (geom_d (fst flags) (snd flags)) (poly_cov_ok (fst flags) (snd flags)));
+  intros cfg flags l Hok Hs H25. unfold write_oas_model_d, view_w_d. rewrite <- xdecode_cov.
+  apply (writer_output_cov_decode_g (geom_d (fst flags) (snd flags)) (poly_cov_ok (fst flags) (snd flags)) cov_record
+           (fun _ _ _ _ H => H));
     [intros p; apply geom_d_is_geom|intros p; apply geom_d_nonempty|apply geom_d_cstep|exact Hok|exact Hs|].
   destruct Hok as (_ & _ & Hcells & _). destruct Hs as (Hsmall & _). unfold no_ctrap25 in H25.
   rewrite Forall_forall in *. intros c Hc.
@@ -580,6 +677,58 @@ Theorem oas_models_roundtrip_d_lemma : forall cfg flags l,
 Proof.
   intros cfg flags l H1 H2 H3. apply OasisReadProofs.cov_reader_ok_lemma. apply writer_output_cov_decode_d_lemma; assumption.
 Qed.
+
+(* ---- guard (c5) relaxed (OasisReadRelaxed.v): EVERY flag word, no side condition *)
+Lemma cov_record5_ctrap25 ois m k c cs body e m1 rest : k_cells k = c :: cs ->
+  cov_ctrapezoid_gen false m (body ++ rest) = None ->
+  cov_ctrapezoid_gen true m (body ++ rest) = Some (e, m1, rest) ->
+  cov_record5 ois (DS m k) ((26 :: body) ++ rest) =
+  Some (Cont (DS (forget_h m1) (k_set_cells k (push_elem c e :: cs) T_elem)) rest).
+Proof.
+  intros Hc Hf Ht. unfold cov_record5.
+  assert (E : cov_record ois (DS m k) ((26 :: body) ++ rest) = None).
+  { unfold cov_record. cbn [app rd_byte obnd]. unfold cov_elem_step, cov_ctrapezoid. cbn [DS d_modal]. rewrite Hf. reflexivity. }
+  rewrite E. cbn [app]. change (26 =? 26) with true. cbv iota.
+  unfold cov_elem_step, cov_ctrapezoid5. cbn [DS d_modal]. rewrite Ht. cbn [obnd].
+  unfold add_elem. cbn [DS d_cells]. rewrite Hc. reflexivity.
+Qed.
+
+Lemma geom_d_cstep5 dr dt : geom_step cov_record5 wpoly_oks (geom_d dr dt).
+Proof.
+  intros ois p [Hok Hs] m k c cs Ha Hc.
+  destruct (writes_ctrap25 dr dt p) eqn:W.
+  - (* the CTRAPEZOID 25 record: rejected by cov_record, taken by the relaxed branch *)
+    unfold writes_ctrap25 in W. unfold geom_d.
+    destruct (if dr then is_rectangle (py_pts p) else None) as [cs0|] eqn:Er; [discriminate|].
+    destruct (if dt then is_trapezoid (py_pts p) else None) as [t|] eqn:Et; [|discriminate].
+    assert (Ht : is_trapezoid (py_pts p) = Some t) by (destruct dt; [exact Et|discriminate]).
+    assert (Ety : (25 <? tr_ty t) = false) by (apply N.eqb_eq in W; rewrite W; reflexivity).
+    destruct (cov_ctrapezoid_gen_w false m p t Hok Hs Ht Ety Ha) as (body & m1 & E & D & A1).
+    destruct (cov_ctrapezoid_gen_w true m p t Hok Hs Ht Ety Ha) as (body' & m1' & E' & D' & A1').
+    assert (body' = body) by congruence. subst body'.
+    exists (forget_h m1'). split; [|exact A1']. intros rest. rewrite E.
+    apply (cov_record5_ctrap25 ois m k c cs body _ m1' rest Hc).
+    + rewrite (D rest), W. reflexivity.
+    + rewrite (D' rest). reflexivity.
+  - destruct (geom_d_cstep dr dt ois p (conj (conj Hok Hs) W) m k c cs Ha Hc) as (m1 & D & A1).
+    exists m1. split; [|exact A1]. intros rest. apply cov_record5_ext. exact (D rest).
+Qed.
+
+Theorem writer_output_cov5_decode_d_lemma : forall cfg flags l,
+  wlib_ok_d flags l -> wlib_small_d flags l ->
+  xdecode cov_record5 (write_oas_model_d cfg flags l) = Some (view_w_d cfg flags l).
+Proof.
+  intros cfg flags l Hok Hs. unfold write_oas_model_d, view_w_d.
+  apply (writer_output_cov_decode_g (geom_d (fst flags) (snd flags)) wpoly_oks cov_record5 cov_record5_ext);
+    [intros p; apply geom_d_is_geom|intros p; apply geom_d_nonempty|apply geom_d_cstep5|exact Hok|exact Hs|].
+  destruct Hok as (_ & _ & Hcells & _). destruct Hs as (Hsmall & _).
+  rewrite Forall_forall in *. intros c Hc. exact (wcell_oks_intro c (Hcells c Hc) (Hsmall c Hc)).
+Qed.
+
+(* save under ANY flag word, then load: the library as the file holds it *)
+Theorem oas_models_roundtrip_d_all_lemma : forall cfg flags l, wlib_ok_d flags l -> wlib_small_d flags l ->
+  read_oas_model (write_oas_model_d cfg flags l) = Ok (OasisRead.view (view_w_d cfg flags l)).
+Proof. intros cfg flags l H1 H2. apply cov5_reader_ok_lemma. apply writer_output_cov5_decode_d_lemma; assumption. Qed.
 
 (* ================================================================== 4. similarity: an equivalence, carried by the reader's view *)
 Lemma Forall2_sym {A B} (R : A -> B -> Prop) (S : B -> A -> Prop) :
@@ -682,13 +831,13 @@ Qed.
 (* ================================================================== 5. the statements *)
 (* (b) loading the detected file and loading the undetected file give similar libraries *)
 Theorem reader_detected_vs_plain_lemma : forall cfg flags l,
-  wlib_ok l -> wlib_small l -> wlib_ok_d flags l -> wlib_small_d flags l -> no_ctrap25 flags l ->
+  wlib_ok l -> wlib_small l -> wlib_ok_d flags l -> wlib_small_d flags l ->
   exists A B, read_oas_model (write_oas_model_d cfg flags l) = Ok A /\
               read_oas_model (write_oas_model cfg l) = Ok B /\ rlib_sim A B.
 Proof.
-  intros cfg flags l H1 H2 H3 H4 H5.
+  intros cfg flags l H1 H2 H3 H4.
   exists (OasisRead.view (view_w_d cfg flags l)), (OasisRead.view (view_w cfg l)).
-  split; [apply oas_models_roundtrip_d_lemma; assumption|]. split; [apply oas_models_roundtrip_full_lemma; assumption|].
+  split; [apply oas_models_roundtrip_d_all_lemma; assumption|]. split; [apply oas_models_roundtrip_full_lemma; assumption|].
   apply view_sim_lemma. apply view_w_d_sim_lemma. apply H1.
 Qed.
 
@@ -703,15 +852,15 @@ Proof.
   eapply layout_sim_trans; [apply view_w_d_sim_lemma; exact Hc|]. apply layout_sim_sym. apply view_w_d_sim_lemma. exact Hc.
 Qed.
 
-(* ... and for the reader model (flag words that write no CTRAPEZOID 25) *)
+(* ... and for the reader model *)
 Theorem reader_flag_independence_lemma : forall cfg f1 f2 l,
-  wlib_ok_d f1 l -> wlib_small_d f1 l -> no_ctrap25 f1 l -> wlib_ok_d f2 l -> wlib_small_d f2 l -> no_ctrap25 f2 l ->
+  wlib_ok_d f1 l -> wlib_small_d f1 l -> wlib_ok_d f2 l -> wlib_small_d f2 l ->
   exists A B, read_oas_model (write_oas_model_d cfg f1 l) = Ok A /\
               read_oas_model (write_oas_model_d cfg f2 l) = Ok B /\ rlib_sim A B.
 Proof.
-  intros cfg f1 f2 l H1 H2 H3 H4 H5 H6.
+  intros cfg f1 f2 l H1 H2 H4 H5.
   exists (OasisRead.view (view_w_d cfg f1 l)), (OasisRead.view (view_w_d cfg f2 l)).
-  split; [apply oas_models_roundtrip_d_lemma; assumption|]. split; [apply oas_models_roundtrip_d_lemma; assumption|].
+  split; [apply oas_models_roundtrip_d_all_lemma; assumption|]. split; [apply oas_models_roundtrip_d_all_lemma; assumption|].
   apply view_sim_lemma. destruct H1 as (_ & _ & Hc & _).
   eapply layout_sim_trans; [apply view_w_d_sim_lemma; exact Hc|]. apply layout_sim_sym. apply view_w_d_sim_lemma. exact Hc.
 Qed.
@@ -728,17 +877,17 @@ Example sample_dlib_roundtrip : forall cfg dt,
 Proof.
   intros cfg dt. apply oas_models_roundtrip_d_lemma; [apply sample_dlib_ok|apply sample_dlib_small|apply no_ctrap25_rect].
 Qed.
-Example sample_dlib_flag_independence : forall cfg, exists A B,
-  read_oas_model (write_oas_model_d cfg (true, true) sample_dlib) = Ok A /\
-  read_oas_model (write_oas_model_d cfg (false, false) sample_dlib) = Ok B /\ rlib_sim A B.
+Example sample_dlib_flag_independence : forall cfg f1 f2, exists A B,
+  read_oas_model (write_oas_model_d cfg f1 sample_dlib) = Ok A /\
+  read_oas_model (write_oas_model_d cfg f2 sample_dlib) = Ok B /\ rlib_sim A B.
 Proof.
-  intros cfg. apply reader_flag_independence_lemma;
-    [apply sample_dlib_ok|apply sample_dlib_small|apply no_ctrap25_rect|apply sample_dlib_ok|apply sample_dlib_small|apply no_ctrap25_notrap].
+  intros cfg f1 f2. apply reader_flag_independence_lemma;
+    [apply sample_dlib_ok|apply sample_dlib_small|apply sample_dlib_ok|apply sample_dlib_small].
 Qed.
 
 (* a square under DETECT_TRAPEZOIDS alone is written as CTRAPEZOID 25, which guard (c5) keeps out of `covered` (the reader
-   leaves the modal height alone where the strict decoder sets it): the reader theorem does not apply to this file, although
-   the reader model, run on it, returns the library the file holds *)
+   leaves the modal height alone where the strict decoder sets it): OasisReadProofs.cov_reader_ok_lemma does not apply to this
+   file; the relaxed guard of OasisReadRelaxed.v does (oas_models_roundtrip_d_all_lemma) *)
 Definition square_lib : wlib :=
   mkWLib 4652007308841189376 [] [ mkWCell [84] [ mkWPoly 1 0 [(0, 0); (4, 0); (4, 4); (0, 4)]%Z WNone [] ] [] [] [] [] ].
 Example ctrap25_outside_covered :
@@ -780,6 +929,7 @@ Proof. destruct flags as [dr dt]. cbn [fst snd]. intros [->| ->]; [apply no_ctra
 
 Check writer_output_cov_decode_d_lemma.
 Check oas_models_roundtrip_d_lemma.
+Check oas_models_roundtrip_d_all_lemma.
 Check reader_detected_vs_plain_lemma.
 Check decoder_flag_independence_lemma.
 Check reader_flag_independence_lemma.
